@@ -2347,7 +2347,7 @@ def native_family_replay(cls_name, include_known=False):
     sel = fam[::5] if generic else [e for e in fam if e.cls == cls_name]
     sel = sel + [e for e in strict_members() if generic or e.cls == cls_name]
     n, bad = differential(sel, envs=["default", "async", "strict"])
-    n2, bad2 = differential_extra(cls_name) if cls_name in ("Const", "TemplateData") else (0, [])
+    n2, bad2 = differential_extra(cls_name) if cls_name and not generic else (0, [])
     hits = [b for b in bad + bad2 if (generic or b[0].split(":")[0] == cls_name) and (include_known or b[0] not in known_keys())]
     if hits:
         return True, f"{hits[0][1]}  [{hits[0][0]}]"
